@@ -41,7 +41,7 @@ ASSUMPTIONS = [
 OG = PolyOperands(max_terms=4, max_exp=2, kinds="if", max_names=3)
 BOOL_OPTS = ["retain_names", "retain_coefficients", "sort_graded", "sort_reverse",
              "display_graded", "display_reverse", "display_inverse", "force_number_suffix"]
-SKIP = {"apply_along_axis", "apply_over_axes", "to_sympy"}
+SKIP = {"apply_along_axis", "apply_over_axes", "to_sympy", "copyto"}
 ORDERING_X = {"sortable_proxy", "lead_exponent", "lead_coefficient"}
 DISPLAY_X = {"str", "repr"}
 
